@@ -50,6 +50,7 @@ type propResult struct {
 	byBackend   map[string]int
 	nGuards     int
 	guardsFail  []*Obligation
+	unreach     []string
 }
 
 var fileSafe = regexp.MustCompile(`[^A-Za-z0-9_.-]+`)
@@ -157,7 +158,12 @@ func runCheck(prop, tier, repo string, seed int, overlay map[string][]byte, repo
 		if o.Expect == "sat" {
 			res.nGuards++
 			if o.Status != "discharged" {
-				res.guardsFail = append(res.guardsFail, o)
+				if o.Kind == "cover" {
+					// an unreachable return may be legitimate dead code: reported, not an alarm
+					res.unreach = append(res.unreach, o.Name)
+				} else {
+					res.guardsFail = append(res.guardsFail, o)
+				}
 			}
 			continue
 		}
@@ -314,6 +320,7 @@ func writeEvidence(res *propResult, tier string, seed int, eng *Engine) {
 		"samples":                  samples,
 		"vacuity_and_cover_checks": res.nGuards,
 		"vacuity_failures":         len(res.guardsFail),
+		"unreachable_returns":      res.unreach,
 		"known_findings_open":      res.known,
 		"stale_contracts":          res.stale,
 		"undecided_functions":      res.undecided,
